@@ -740,6 +740,8 @@ class Interp:
                 return getattr(obj, name)
         if isinstance(obj, SuperRef):
             return self.bm.super_attr(self, obj, name)
+        if isinstance(obj, BuiltinRef) and obj.name == 'str':
+            return BuiltinRef('str.' + name)
         if is_str(obj) or isinstance(obj, (PList, PDict, tuple, PIter)) or is_int(obj) or is_bool(obj) \
                 or isinstance(obj, (self.bm.SymSeq, self.bm.UStr)):
             return BuiltinMethod(obj, name)
